@@ -29,6 +29,7 @@ import (
 
 var (
 	recvLbOnce sync.Once
+	recvLbMu   sync.Mutex // one dial/accept pair at a time: concurrent callers would get each other's sockets
 	recvLbL    *net.TCPListener
 	recvLbErr  error
 )
@@ -45,6 +46,8 @@ func RecvTCPPair() (a, b *net.TCPConn, err error) {
 	if recvLbErr != nil {
 		return nil, nil, recvLbErr
 	}
+	recvLbMu.Lock()
+	defer recvLbMu.Unlock()
 	type acc struct {
 		c   *net.TCPConn
 		err error
